@@ -77,7 +77,8 @@ def units(tier):
     L = 5 if tier == 'quick' else 6
     for sh in range(8):
         out.append({'fam': 'plain', 'tier': tier, 'L': L, 'shard': [sh, 8]})
-    out.append({'fam': 'probe', 'tier': tier})
+    for j in JOINS + ['describe']:
+        out.append({'fam': 'probe', 'tier': tier, 'which': j})
     for parent in NEST_PARENTS:
         for join in JOINS:
             out.append({'fam': 'nested', 'parent': parent, 'join': join, 'L': 4 if tier == 'quick' else 5})
@@ -91,8 +92,11 @@ def cases(unit):
         for i, seq in enumerate(spaces.wf_sequences(unit.get('keys', [0, 1]), [1, 2], unit['depth'])):
             if i % n == sh:
                 yield {'fam': 'raw', 'tier': unit['tier'], 'events': [list(e) for e in seq]}
+    elif fam == 'probe' and unit['which'] == 'describe':
+        for seq in spaces.sequences([1, 2, 5], 4, 1):
+            yield {'fam': 'describe', 'join': 'zip', 'seq': seq}
     elif fam == 'probe':
-        for join in JOINS:
+        for join in [unit['which']]:
             for n in (255, 256, 257, 512):
                 yield {'fam': 'longkey', 'join': join, 'n': n}
             yield {'fam': 'reuse_op', 'join': join}
@@ -141,6 +145,28 @@ def run_probe(case, acc):
     from ..drivers import Sink
     fam, join = case['fam'], case['join']
     out = []
+    if fam == 'describe':
+        # rs.math.dist.describe() is a tee_map(zip) of the dist.* metrics: it must equal the metrics computed one by one
+        seq = case['seq']
+        D = rs.math.dist
+        def alone(metric, mux):
+            s_ = Sink()
+            ops = [D.update(bin_count=4), metric]
+            s_.subscribe_to(rx.from_(seq).pipe(rs.state.with_memory_store(ops)) if mux else rx.from_(seq).pipe(*ops))
+            return s_.items
+        for mux in (True, False):
+            s_ = Sink()
+            ops = [D.update(bin_count=4), D.describe(quantiles=[0.5])]
+            s_.subscribe_to(rx.from_(seq).pipe(rs.state.with_memory_store(ops)) if mux else rx.from_(seq).pipe(*ops))
+            cols = [alone(m, mux) for m in (D.min(), D.max(), D.mean(), D.stddev(), D.quantile(0.5))]
+            exp = [tuple(c[i] for c in cols) for i in range(len(seq))]
+            acc.evals += 6
+            acc.traces += 1
+            if s_.error is not None or [tuple(x) for x in s_.items] != exp:
+                out.append(viol('dist.describe', 'zip', 'differs-from-metrics-computed-separately',
+                                {'seq': seq, 'mux': mux, 'expected': exp, 'observed': s_.items, 'error': repr(s_.error)}))
+                break
+        return out
     if fam == 'longkey':
         # one branch produces n values for a key while the other produces one at completion (n around 256)
         n = case['n']
@@ -206,7 +232,7 @@ def run_probe(case, acc):
 
 def run_case(case, acc):
     fam = case['fam']
-    if fam in ('longkey', 'reuse_op', 'manykeys'):
+    if fam in ('longkey', 'reuse_op', 'manykeys', 'describe'):
         return run_probe(case, acc)
     if fam == 'nested':
         return run_nested(case, acc)
